@@ -139,6 +139,8 @@ structure World.Good (W : World) : Prop where
   inj : ∀ a a' b, W.ρ a b → W.ρ a' b → a = a'
   scS : ∀ v, W.TS v → v < W.nS
   scD : ∀ v, W.TD v → v < W.nD
+  /-- corresponding variables are unbound on both sides -/
+  unb : ∀ a b, W.ρ a b → (∀ p ∈ W.σS, p.1 ≠ a) ∧ (∀ p ∈ W.σD, p.1 ≠ b)
 
 /-- `W'` comes after `W`: related pairs stay related, the stores are extended, and on the SLD side
     only variables that were touched before, are allowed by `P`, or are new get touched -/
@@ -300,8 +302,23 @@ theorem World.bindPar_ok {W : World} (hW : W.Good) {aS aD : Nat} {uS uD : Term} 
       · exact .inr ⟨aS, e ▸ ha⟩
       · exact .inl ⟨p, hp, e⟩
     · exact .inr ⟨a, r⟩
+  have hunb : ∀ a b, (W.bindPar aS uS aD uD).ρ a b →
+      (∀ p ∈ (W.bindPar aS uS aD uD).σS, p.1 ≠ a) ∧ (∀ p ∈ (W.bindPar aS uS aD uD).σD, p.1 ≠ b) := by
+    intro a b r
+    have hb : b ≠ aD := fun e => r.2 (hW.inj _ _ _ r.1 (e ▸ ha))
+    constructor
+    · intro p hp
+      simp only [World.bindPar, List.mem_cons] at hp
+      rcases hp with rfl | hp
+      · exact fun e => r.2 e.symm
+      · exact (hW.unb a b r.1).1 p hp
+    · intro p hp
+      simp only [World.bindPar, List.mem_cons] at hp
+      rcases hp with rfl | hp
+      · exact fun e => hb e.symm
+      · exact (hW.unb a b r.1).2 p hp
   refine ⟨⟨fun a b b' h h' => hW.fn a b b' h.1 h'.1, fun a a' b h h' => hW.inj a a' b h.1 h'.1,
-    fun v hv => hW.scS v (tS v hv), fun v hv => hW.scD v (tD v hv)⟩,
+    fun v hv => hW.scS v (tS v hv), fun v hv => hW.scD v (tD v hv), hunb⟩,
     ⟨?_, ⟨[(aS, uS)], rfl⟩, ⟨[(aD, uD)], rfl⟩, Nat.le_refl _, Nat.le_refl _,
       fun v hv => .inl (tS v hv), fun v hv => .inl (tD v hv)⟩⟩
   refine persist (ΔS := [(aS, uS)]) (ΔD := [(aD, uD)]) rfl rfl ?_
@@ -336,7 +353,15 @@ theorem World.bindS_ok {W : World} (hW : W.Good) {s : Nat} (u : Term) (hs : ¬ W
       · exact .inr e.symm
       · exact .inl (.inl ⟨p, hp, e⟩)
     · exact .inl (.inr ⟨b, r⟩)
-  refine ⟨⟨hW.fn, hW.inj, fun v hv => ?_, hW.scD⟩,
+  have hunb : ∀ a b, (W.bindS s u).ρ a b →
+      (∀ p ∈ (W.bindS s u).σS, p.1 ≠ a) ∧ (∀ p ∈ (W.bindS s u).σD, p.1 ≠ b) := by
+    intro a b r
+    refine ⟨fun p hp => ?_, (hW.unb a b r).2⟩
+    simp only [World.bindS, List.mem_cons] at hp
+    rcases hp with rfl | hp
+    · exact fun e => hs (.inr ⟨b, by have e' : s = a := e; rw [e']; exact r⟩)
+    · exact (hW.unb a b r).1 p hp
+  refine ⟨⟨hW.fn, hW.inj, fun v hv => ?_, hW.scD, hunb⟩,
     ⟨?_, ⟨[(s, u)], rfl⟩, ⟨[], rfl⟩, Nat.le_refl _, Nat.le_refl _, fun v hv => ?_, fun v hv => .inl hv⟩⟩
   · rcases tS v hv with h | h
     · exact hW.scS v h
@@ -391,7 +416,21 @@ theorem World.swapS_ok {W : World} (hW : W.Good) {a s aD : Nat} (ha : W.ρ a aD)
     · rcases r with r | r
       · exact .inr ⟨x, r.1⟩
       · exact .inr ⟨a, r.2⟩
-  refine ⟨⟨?_, ?_, fun v hv => ?_, fun v hv => hW.scD v (tD v hv)⟩,
+  have hunb : ∀ x y, (W.swapS a s).ρ x y →
+      (∀ p ∈ (W.swapS a s).σS, p.1 ≠ x) ∧ (∀ p ∈ (W.swapS a s).σD, p.1 ≠ y) := by
+    intro x y r
+    rcases r with r | r
+    · refine ⟨fun p hp => ?_, (hW.unb x y r.1).2⟩
+      simp only [World.swapS, List.mem_cons] at hp
+      rcases hp with rfl | hp
+      · exact fun e => r.2 e.symm
+      · exact (hW.unb x y r.1).1 p hp
+    · refine ⟨fun p hp => ?_, (hW.unb a y r.2).2⟩
+      simp only [World.swapS, List.mem_cons] at hp
+      rcases hp with rfl | hp
+      · exact fun e => hsρ aD (by rw [← r.1, ← e]; exact ha)
+      · exact fun e => hs (.inl ⟨p, hp, by rw [e, r.1]⟩)
+  refine ⟨⟨?_, ?_, fun v hv => ?_, fun v hv => hW.scD v (tD v hv), hunb⟩,
     ⟨?_, ⟨[(a, .var s)], rfl⟩, ⟨[], rfl⟩, Nat.le_refl _, Nat.le_refl _, fun v hv => ?_, fun v hv => .inl (tD v hv)⟩⟩
   · intro x b b' h h'
     rcases h with h | h <;> rcases h' with h' | h'
@@ -445,7 +484,17 @@ theorem World.addVars_ok {W : World} (hW : W.Good) {nv cS cD : Nat} (hS : nv ≤
     · exact .inl (.inl ⟨p, hp, e⟩)
     · exact .inl (.inr ⟨b, r⟩)
     · exact .inr (by omega)
-  refine ⟨⟨?_, ?_, fun v hv => ?_, fun v hv => ?_⟩,
+  have hunb : ∀ a b, (W.addVars nv cS cD).ρ a b →
+      (∀ p ∈ (W.addVars nv cS cD).σS, p.1 ≠ a) ∧ (∀ p ∈ (W.addVars nv cS cD).σD, p.1 ≠ b) := by
+    intro a b r
+    rcases r with r | ⟨w, hw, e1, e2⟩
+    · exact hW.unb a b r
+    · constructor
+      · intro p hp e
+        have := hW.scS _ (.inl ⟨p, hp, e⟩); omega
+      · intro p hp e
+        have := hW.scD _ (.inl ⟨p, hp, e⟩); omega
+  refine ⟨⟨?_, ?_, fun v hv => ?_, fun v hv => ?_, hunb⟩,
     ⟨?_, ⟨[], rfl⟩, ⟨[], rfl⟩, Nat.le_add_right _ _, Nat.le_add_right _ _, fun v hv => ?_, fun v hv => ?_⟩⟩
   · intro x b b' h h'
     rcases h with h | ⟨w, hw, e1, e2⟩ <;> rcases h' with h' | ⟨w', hw', e1', e2'⟩
